@@ -35,7 +35,8 @@ type NativeCall struct {
 	ExtraC  string // additional C definitions (e.g. extern callbacks)
 	Name    string
 	Objects []string
-	Track   bool // wrap ddp_reallocate: report wrong sizes, foreign releases and blocks left at the end
+	InitFn  string // module initialiser to call first (globals)
+	Track   bool   // wrap ddp_reallocate: report wrong sizes, foreign releases and blocks left at the end
 }
 
 type NativeResult struct {
@@ -165,7 +166,14 @@ static void vreport(void) { int live = 0; for (int i = 0; i < vnb; i++) if (VB[i
 		}
 	}
 	fmt.Fprintf(&sb, "extern %s %s(%s);\n", nc.RetC, nc.Fn, strings.Join(ptypes, ", "))
+	if nc.InitFn != "" {
+		// the symbol is derived from the file path and need not be a C identifier
+		fmt.Fprintf(&sb, "extern void vmodinit(void) __asm__(\"%s\");\n", nc.InitFn)
+	}
 	sb.WriteString("int main(int argc, char **argv) {\n\tddp_init_runtime(argc, argv);\n")
+	if nc.InitFn != "" {
+		sb.WriteString("\tvmodinit();\n")
+	}
 	sb.WriteString(setup.String())
 	call := fmt.Sprintf("%s(%s)", nc.Fn, strings.Join(callArgs, ", "))
 	switch nc.RetC {
@@ -218,12 +226,12 @@ func RunNative(env *build.Env, nc *NativeCall) *NativeResult { return RunNativeO
 
 // RunNativeOpt optionally runs the replay under valgrind (memory faults: exit status 99).
 func RunNativeOpt(env *build.Env, nc *NativeCall, valgrind bool) *NativeResult {
-	res := &NativeResult{Driver: nc.Driver()}
+	res := &NativeResult{}
 	if err := env.ReplayTree(); err != nil {
 		res.Err = "replay tree: " + err.Error()
 		return res
 	}
-	dir, err := os.MkdirTemp(env.Dir, "native-")
+	dir, err := os.MkdirTemp(env.Dir, "native_")
 	if err != nil {
 		res.Err = err.Error()
 		return res
@@ -242,6 +250,19 @@ func RunNativeOpt(env *build.Env, nc *NativeCall, valgrind bool) *NativeResult {
 		res.Err = "kddp: " + err.Error() + " " + string(out)
 		return res
 	}
+	if nc.InitFn != "" {
+		// the module initialiser of the freshly compiled object
+		nc.InitFn = ""
+		if out, err := exec.Command("nm", "--defined-only", obj).Output(); err == nil {
+			for _, l := range strings.Split(string(out), "\n") {
+				f := strings.Fields(l)
+				if len(f) == 3 && strings.HasPrefix(f[2], "ddp_") && strings.HasSuffix(f[2], "_init") {
+					nc.InitFn = f[2]
+				}
+			}
+		}
+	}
+	res.Driver = nc.Driver()
 	drv := filepath.Join(dir, "driver.c")
 	os.WriteFile(drv, []byte(res.Driver), 0o644)
 	exe := filepath.Join(dir, "replay")
@@ -291,7 +312,7 @@ func RunCValgrind(env *build.Env, name, src string) *NativeResult {
 		res.Err = "replay tree: " + err.Error()
 		return res
 	}
-	dir, err := os.MkdirTemp(env.Dir, "cval-")
+	dir, err := os.MkdirTemp(env.Dir, "cval_")
 	if err != nil {
 		res.Err = err.Error()
 		return res
